@@ -1,6 +1,8 @@
 #!/usr/bin/env python3
 """Applies each seeded change (seeded/<id>/patch.diff) to /repo, runs the quick checks, undoes the change.
-usage: tools/run_seeded.py [seeded-id ...] [--props C01,C02] [--tier quick]
+usage: tools/run_seeded.py [seeded-id ...] [--props C01,C02] [--tier quick] [--scratch]
+--scratch: apply each change in a scratch worktree (PPP_REPO=<worktree>, evidence redirected to work/) instead of
+/repo itself, so that other work on /repo and /verif/evidence can go on meanwhile; results are identical.
 Writes seeded/RESULTS.json and prints a table. /repo is restored with `git checkout -- .` after every patch."""
 import json
 import os
@@ -30,9 +32,18 @@ def main():
             props = a.split("=", 1)[1].split(",")
         if a.startswith("--tier="):
             tier = a.split("=", 1)[1]
+    scratch = "--scratch" in sys.argv[1:]
     ids = args or sorted(d for d in os.listdir(SEEDED) if os.path.isdir(os.path.join(SEEDED, d)))
     props = props or claimed()
-    assert sh("git -C /repo status --porcelain --untracked-files=no").stdout.strip() == "", "/repo has local edits"
+    repo = "/repo"
+    cenv = dict(os.environ)
+    if scratch:
+        repo = "/tmp/seedwt_%d" % os.getpid()
+        r = sh("git -C /repo worktree add -q %s HEAD" % repo)
+        assert r.returncode == 0, r.stderr
+        cenv.update({"PPP_REPO": repo, "VERIF_EVIDENCE_DIR": os.path.join(VERIF, "work", "evidence-scratch")})
+    else:
+        assert sh("git -C /repo status --porcelain --untracked-files=no").stdout.strip() == "", "/repo has local edits"
     results = {}
     path = os.path.join(SEEDED, "RESULTS.json")
     if os.path.exists(path):
@@ -40,7 +51,7 @@ def main():
     for sid in ids:
         patch = os.path.join(SEEDED, sid, "patch.diff")
         meta = json.load(open(os.path.join(SEEDED, sid, "meta.json")))
-        r = sh("git -C /repo apply %s" % patch)
+        r = sh("git -C %s apply %s" % (repo, patch))
         if r.returncode != 0:
             print(sid, "patch does not apply:", r.stderr[:200])
             continue
@@ -48,17 +59,22 @@ def main():
         try:
             for p in props:
                 t0 = time.time()
-                c = sh("./check %s --tier %s" % (p, tier), cwd=VERIF)
+                c = sh("./check %s --tier %s" % (p, tier), cwd=VERIF, env=cenv)
                 viol = [l for l in c.stdout.split("\n") if l.startswith("VIOLATION")]
                 caught[p] = {"rc": c.returncode, "violation": viol[0] if viol else None, "wall": round(time.time() - t0, 1)}
         finally:
-            sh("git -C /repo checkout -- .")
-            sh("git -C /repo clean -fdq src")
+            sh("git -C %s checkout -- ." % repo)
+            sh("git -C %s clean -fdq src" % repo)
         hit = [p for p, v in caught.items() if v["rc"] != 0]
         withinput = [p for p, v in caught.items() if v["violation"] and "no-failing-input-found" not in v["violation"]]
         results[sid] = {"breaks": meta.get("breaks"), "caught_by": hit, "caught_with_failing_input": withinput, "detail": caught}
         print("%-14s breaks=%-5s caught_by=%s (with failing input: %s)" % (sid, meta.get("breaks"), ",".join(hit) or "-", ",".join(withinput) or "-"))
         json.dump(results, open(path, "w"), indent=1)
+    if scratch:
+        sh("git -C /repo worktree remove --force %s" % repo)
+        import shutil
+        shutil.rmtree(os.path.join(VERIF, "work", "harness" + "".join(ch if ch.isalnum() else "_" for ch in repo)), ignore_errors=True)
+        return
     # leave the evidence files of the unchanged tree in place
     print("re-running checks on the restored tree to rewrite evidence ...")
     for p in props:
